@@ -9,7 +9,9 @@ Tie:   (a) Wire.put/prepare regenerated (Gen/WireOps.v) and every translated clo
            (Spec.C05.ref_clk) are run inside Coq against the real simulator on real multi-register designs, and the
            hypotheses of the theorems (registered_once, single_writer, outs_nodup, topo) are checked on each dumped design.
 Oracle / search: real designs (register chains with feedback, exchanging registers, memory pipelines, Counters, the
-       HIL FSM blocks, random netlists; 1-3 clock drivers) where the harness PERMUTES sim.clockDrivers[drv].clockables
+       HIL FSM blocks, a "zoo" of the remaining clocked library blocks (Sequence wrapping / one-shot, StreamCapture,
+       dual-port memory, UART / Vitis FSMs, lpm counter) between producers and consumers, random netlists; sequential
+       outputs on ordinary AND bidirectional nets; 1-4 clock drivers, several sharing a name) where the harness PERMUTES sim.clockDrivers[drv].clockables
        and the dict order of drivers, splits clk(n) arbitrarily, and inspects Wire.prepared and sim.total_clks;
        compared with a harness-owned snapshot-then-apply reference simulator."""
 import ast, glob, os, random, json
@@ -300,10 +302,10 @@ def self_loop_split():
 # ------------------------------------------------------------------------------------------------ run
 def plan(ctx):
     if ctx.quick:
-        fams = [('chain', 1), ('chain', 2), ('chain', 3), ('swap', 1), ('swap', 2), ('mem', 1), ('mem', 3), ('counter', 1), ('counter', 2),
-                ('fsm', 1), ('fsm', 2), ('random', 1)]
+        fams = [('zoo', 1), ('zoo', 2), ('chain', 1), ('chain', 2), ('chain', 3), ('swap', 1), ('swap', 2), ('mem', 1), ('mem', 3), ('counter', 1),
+                ('counter', 2), ('fsm', 1), ('fsm', 2), ('random', 1)]
         return fams, 4, 14, ['reverse', 'random']
-    fams = [(f, d) for f in ('chain', 'swap', 'mem', 'counter', 'fsm') for d in (1, 2, 3, 4)] + [('random', 1), ('hier', 2), ('hier', 4)]
+    fams = [(f, d) for f in ('zoo', 'chain', 'swap', 'mem', 'counter', 'fsm') for d in (1, 2, 3, 4)] + [('random', 1), ('hier', 2), ('hier', 4)]
     return fams, 24, 24, ['reverse', 'random', 'rotate']
 
 
@@ -390,7 +392,7 @@ def run(ctx):
         ctx.notes['self_loop_split_error'] = repr(ex)
     if not found and not tie_ok:
         # obligation / tie broken and the sweep above found nothing: widen the search before giving up
-        wide = [(f, d) for f in ('chain', 'swap', 'mem', 'counter', 'fsm') for d in (1, 2, 3)]
+        wide = [(f, d) for f in ('zoo', 'chain', 'swap', 'mem', 'counter', 'fsm') for d in (1, 2, 3)]
         for fi, (fam, dom) in enumerate(wide):
             for sd in range(6):
                 seed = ctx.seed * 1000003 + 500000 + fi * 1009 + sd
